@@ -155,6 +155,10 @@ def r3(ctx):
         ok = combined.get(name) == "%s.%s" % (other, name)
         ctx.ob(iadd.qual, "summed:%s" % name, ok, iadd.loc(), "self.%s is combined with %s.%s" % (name, other, name) if ok else "attribute %s initialised in __init__ is %s in __iadd__" % (name, "combined with %s" % combined[name] if name in combined else "not combined"))
     rets = [n for n in walk_function(iadd.node) if isinstance(n, ast.Return)]
+    icfg = ctx.cfg(iadd)
+    comb_nodes = [icfg.node_of(n) for n in walk_function(iadd.node) if (isinstance(n, ast.AugAssign) and isinstance(n.target, ast.Attribute)) or (isinstance(n, ast.Expr) and isinstance(n.value, ast.Call) and isinstance(n.value.func, ast.Attribute) and n.value.func.attr == "extend")]
+    skipping = [r for r in rets if not all(icfg.dominates(c_, icfg.node_of(r)) for c_ in comb_nodes)]
+    ctx.ob(iadd.qual, "combines-on-every-path", not skipping and bool(comb_nodes), iadd.loc(skipping[0]) if skipping else iadd.loc(), "every return of __iadd__ is dominated by all field combinations" if not skipping else "__iadd__ can return before all counters are combined: a chromosome's counts drop out of the ALL row")
     ok = bool(rets) and all(u(r.value) == "self" for r in rets)
     ctx.ob(iadd.qual, "returns-self", ok, iadd.loc(), "__iadd__ returns self" if ok else "__iadd__ does not return self on every return")
     # per-chromosome stats reach the total
@@ -177,6 +181,17 @@ def r3(ctx):
         if p is not None:
             bad = p
     ctx.ob(run.qual, "chromosome-stats-reach-total", bad is None and bool(adds), run.loc(loop), "every chromosome's stats get their blocks and are added to total_stats on every path" if bad is None and adds else "a chromosome's stats can miss add_blocks or the aggregation into total_stats", cfg.describe_path(bad))
+    # the only way out of the chromosome loop before the file is exhausted: all requested chromosomes were seen
+    exits = util.lexical_loop_exits(loop)
+    for ex in exits:
+        if not isinstance(ex, ast.Break):
+            continue
+        ga = guard_atoms(cfg, cfg.node_of(ex))
+        ok = ("given_chromosomes", True) in ga and any(t.replace(" ", "") in ("set(given_chromosomes)<=seen_chromosomes", "seen_chromosomes<set(given_chromosomes)") and ((p and "<=" in t) or (not p and "<=" not in t)) for t, p in ga) or any("set(given_chromosomes) LtE seen_chromosomes" in t and p for t, p in ga)
+        ctx.ob(run.qual, "early-exit-only-when-all-requested-seen", ok, run.loc(ex), "the chromosome loop stops early only when every requested chromosome has been seen" if ok else "the chromosome loop can stop before all requested chromosomes were processed (guards: %s)" % sorted(t for t, p in ga if "chrom" in t))
+        sd = [c_ for c_ in ctx.prog.calls_in(loop) if u(c_.func) == "seen_chromosomes.add"]
+        ok2 = len(sd) == 1 and u(sd[0].args[0]) == "chromosome" and cfg.dominates(cfg.node_containing(sd[0]), cfg.node_of(ex))
+        ctx.ob(run.qual, "seen-set-tracks-every-chromosome", ok2, run.loc(ex), "seen_chromosomes records every chromosome of the file as it is met" if ok2 else "seen_chromosomes does not record every chromosome")
     # same operand: the stats object filled by get_phase_blocks is the one aggregated
     ok = False
     for g in gp:
@@ -278,4 +293,4 @@ RULES = [
     ("C12.R4", "block list: one line per phase set with 1-based extent and size", r4),
     ("C12.R5", "non-overlapping split: the sorted worklist is re-sorted after insertions", r5),
 ]
-FLOORS = {"C12.R1": 4, "C12.R2": 14, "C12.R3": 10, "C12.R4": 8, "C12.R5": 3}
+FLOORS = {"C12.R1": 4, "C12.R2": 14, "C12.R3": 13, "C12.R4": 8, "C12.R5": 3}
